@@ -2,5 +2,29 @@ package main
 
 // C07 — facts for the later layers (timestamp, bool, string, float framing, WAL reader).
 func genC07Rest(g *Gen) error {
+	const (
+		encTime = "lib/encoding/timestamp.go"
+	)
+	if err := g.srcDef(encTime, "scale", "src_scale"); err != nil {
+		return err
+	}
+	for _, f := range [][3]string{
+		{encTime, "Time.encodingInit", "fp_timeEncodingInit"},
+		{encTime, "Time.Encoding", "fp_timeEncoding"},
+		{encTime, "Time.packUncompressedData", "fp_timePackUncompressedData"},
+		{encTime, "Time.constDeltaEncoding", "fp_timeConstDeltaEncoding"},
+		{encTime, "Time.simple8bEncoding", "fp_timeSimple8bEncoding"},
+		{encTime, "Time.snappyEncoding", "fp_timeSnappyEncoding"},
+		{encTime, "Time.decodingInit", "fp_timeDecodingInit"},
+		{encTime, "Time.Decoding", "fp_timeDecoding"},
+		{encTime, "Time.constDeltaDecoding", "fp_timeConstDeltaDecoding"},
+		{encTime, "Time.simple8bDecoding", "fp_timeSimple8bDecoding"},
+		{encTime, "Time.snappyDecoding", "fp_timeSnappyDecoding"},
+		{encTime, "Time.unpackUncompressedData", "fp_timeUnpackUncompressedData"},
+	} {
+		if err := g.fpDef(f[0], f[1], f[2]); err != nil {
+			return err
+		}
+	}
 	return nil
 }
